@@ -102,11 +102,26 @@ var (
 	reBlock = regexp.MustCompile(`Error: Invariant \S+ is violated`)
 	reL     = regexp.MustCompile(`(?m)^/\\ l = (\d+)`)
 	reWhy   = regexp.MustCompile(`why \|->\s*"([^"]*)"`)
+	reRej   = regexp.MustCompile(`(?m)^<<"REJECT", (\d+), "([^"]*)">>`)
 )
 
 // ParseRejects extracts, from a TLC run with -continue over a deterministic
 // monitor spec, the last cursor value and reason of every violating behaviour.
 func (b *Batch) ParseRejects(out string) []Reject {
+	if ms := reRej.FindAllStringSubmatch(out, -1); len(ms) > 0 {
+		seen := map[int]bool{}
+		var rs []Reject
+		for _, m := range ms {
+			l, _ := strconv.Atoi(m[1])
+			tr, at := b.traceOfLine(l)
+			if seen[tr] {
+				continue
+			}
+			seen[tr] = true
+			rs = append(rs, Reject{Trace: tr, At: at, Why: m[2]})
+		}
+		return rs
+	}
 	locs := reBlock.FindAllStringIndex(out, -1)
 	seen := map[int]bool{}
 	var rs []Reject
@@ -144,6 +159,9 @@ func Validate(o tlc.Opts, b *Batch) ([]Reject, tlc.Result) {
 	o.Files["trace.ndjson"] = b.Bytes()
 	o.Args = append(o.Args, "-continue", "-noGenerateSpecTE")
 	res := tlc.Run(o)
+	if res.OK && reRej.MatchString(res.Output) {
+		return b.ParseRejects(res.Output), res
+	}
 	if res.Violation {
 		rs := b.ParseRejects(res.Output)
 		if len(rs) > 0 && !strings.Contains(res.Output, "Model checking completed") && !res.TimedOut {
